@@ -190,7 +190,15 @@ def ival(e, d, depth=0):
         lo = min(l1, l2) if None not in (l1, l2) else None
         hi = max(h1, h2) if None not in (h1, h2) else None
     else:
-        lo, hi = atom_bounds(d, pp(e), {pp(e): t})
+        key = pp(e)
+        lo, hi = atom_bounds(d, key, {key: t})
+        if (lo is None or hi is None) and depth < 6:
+            # x == E established by an assignment: take E's range
+            for g in d:
+                if g.kind == "cmp" and g.op == "==" and g.key[0] == key and not isinstance(g.key[2], int) and sk(g.r).get("k") != "Call":
+                    l2, h2 = ival(g.r, d, depth + 2)
+                    lo = l2 if lo is None else (lo if l2 is None else max(lo, l2))
+                    hi = h2 if hi is None else (hi if h2 is None else min(hi, h2))
         lo, hi = clamp(lo, hi, t)
     for ct in reversed(chain):
         lo, hi = clamp(lo, hi, ct)
